@@ -32,6 +32,9 @@ def worker(case, led):
         inv = name.endswith("+inv")      # optimize_config.inverse = -1: the optimiser minimises -H (the documented switch for the highest states)
         if inv:
             name = name[:-4]
+        ranks = name.endswith("+ranks")  # procedure entries are CompressConfig objects with NON-UNIFORM per-bond limits equal to the complete ranks of each cut
+        if ranks:
+            name = name[:-6]
         if "+stacked" in name:
             name, k_ = name.split("+stacked")
             stk = int(k_)
@@ -90,6 +93,15 @@ def worker(case, led):
             full = M is None
             Mv = 32 if full else M
             mps.optimize_config.procedure = [[Mv, 0.4], [Mv, 0.2], [Mv, 0.0], [Mv, 0.0], [Mv, 0.0]]
+            if ranks:
+                from renormalizer.utils import CompressConfig, CompressCriteria
+                dims_ = [b.nbas for b in model.basis]
+                caps = [1] + [int(min(np.prod(dims_[:i]), np.prod(dims_[i:]))) for i in range(1, n)] + [1]
+                def cfg_():
+                    c_ = CompressConfig(CompressCriteria.fixed, max_bonddim=int(max(caps)))
+                    c_.max_dims = np.array(caps, dtype=int)          # the documented per-bond table (user-assigned)
+                    return c_
+                mps.optimize_config.procedure = [[cfg_(), pc_] for pc_ in (0.4, 0.2, 0.0, 0.0, 0.0)]
             mps.optimize_config.method = method
             mps.optimize_config.nroots = nroots
             if inv:
@@ -149,6 +161,11 @@ def worker(case, led):
                     Es = np.sort(E.reshape(-1, nroots), axis=1)
                     led.check(np.abs(Es[-1] - lam[:nroots]).max() <= 1e-6 * scale, "post:optimize_mps:exact_roots_at_sufficient_bond_dimension", "optimize_mps",
                               f"final roots {Es[-1]} vs exact {lam[:nroots]}", key + ("exact",), fields, rep)
+                    # ... and the returned states carry these energies (each is the eigenvector of its root at the site that was optimal)
+                    es_ = np.sort([np.vdot(S.dense(o_), Hd @ S.dense(o_)).real for o_ in outs])
+                    oc = outs[0].optimize_config
+                    led.check(np.abs(es_ - lam[:len(es_)]).max() <= max(2e-6 * scale, 10 * (oc.e_rtol * abs(lam[0]) + oc.e_atol)), "post:optimize_mps:returned_states_have_the_exact_root_energies", "optimize_mps",
+                              f"energies of the returned states {es_} vs exact {lam[:len(es_)]}", key + ("exact-states",), fields, rep)
     elif kind == "omega":
         _, name, n, seed, tier = case
         rng = np.random.default_rng([seed, n, 818, sum(map(ord, name))])
@@ -214,8 +231,13 @@ def check(run):
                 for nroots, M in ((1, None), (1, 2), (2, None)):
                     cases.append(("chain", f"{name}+stacked{k_}", n, method, nroots, M, s, run.tier))
         cases.append(("chain", "spinqn-flux+stacked2", 10, "2site", 1, 16, s, run.tier))
+        # per-bond limits given as CompressConfig procedure entries, equal to the complete ranks of every cut (non-uniform): nothing is truncated
+        for nroots in (1, 2, 3):
+            for method in ("2site",):       # (one-site sweeps cannot grow a bond: at exactly complete caps they may stay in the subspace of the start)
+                cases.append(("chain", "spin+ranks", 6, method, nroots, None, s, run.tier))
+                cases.append(("chain", "spinqn+ranks", 6, method, nroots, None, s, run.tier))
         # the switch inverse = -1 (highest states), alone and together with a StackedMpo, dense and iterative local solver
-        for nm, n_, M_ in (("spinqn+inv", 4, None), ("holstein+inv", 4, 3), ("spinqn+stacked2+inv", 4, None), ("holstein+stacked3+inv", 4, None), ("spinqn+stacked2+inv", 10, 16)):
+        for nm, n_, M_ in (("spinqn+inv", 4, None), ("holstein+inv", 4, 3), ("spinqn+stacked2+inv", 4, None), ("holstein+stacked3+inv", 4, None), ("spinqn+stacked2+inv", 10, 16), ("spinqn+inv", 10, 16), ("spinqn+inv", 10, None)):
             for method in ("2site", "1site") if n_ < 10 else ("2site",):
                 for nroots in (1, 2) if n_ < 10 else (1,):
                     cases.append(("chain", nm, n_, method, nroots, M_, s, run.tier))
